@@ -68,7 +68,19 @@ def g_wide(m):
     return g
 
 
-GRAPHS = {'fan': g_fan, 'sum': g_sum, 'small': g_small}
+def g_dead(m):
+    """an unused product whose two operands share a sum (dead-code elimination meets the sum optimiser)"""
+    def g(f=120.0):
+        x, y, w = [m['nse'].LFNoise0.ar(f + i) for i in range(3)]
+        s_ = x + y
+        q = s_ * 0.5
+        p = s_ + w
+        p * q                      # never used; q is read by nothing else
+        m['iou'].Out.ar(0, p)
+    return g
+
+
+GRAPHS = {'fan': g_fan, 'sum': g_sum, 'small': g_small, 'dead': g_dead}
 HIST_GRAPHS = {'sum': g_sum, 'small': g_small, 'wide': g_wide}
 
 
@@ -431,6 +443,7 @@ def threads_scenario(ctx, g0, g1, budget):
     finally:
         main._def_build_lock = saved_lock
         sdf.SynthDef._add_ugen = saved_add
+        left_ctx = main._current_synthdef
         main._current_synthdef = None
         Ctx.cur = ctx
     for e in errs:
@@ -440,6 +453,10 @@ def threads_scenario(ctx, g0, g1, budget):
         if e is not None:
             raise Violation(f'concurrent build {i} raises {type(e).__name__}: {e} (schedule {coop.trace})', None,
                             data('raises'))
+    if left_ctx is not None and not any(errs):
+        raise Violation(f'after two concurrent builds the build context still points at a definition '
+                        f'({left_ctx.name!r}): units created now would join it; schedule {coop.trace}', None,
+                        data('context'))
     for i in range(2):
         if res[i] != base[i]:
             raise Violation(f'concurrent build {i} yields {len(res[i])} bytes that differ from its sequential build '
@@ -567,6 +584,11 @@ def replay(rec):
                     t.start()
                 for t in ts:
                     t.join(20)
+                if main._current_synthdef is not None and not any(errs):
+                    nm = main._current_synthdef.name
+                    main._current_synthdef = None
+                    return f'after two concurrent builds the build context still points at definition {nm!r} ' \
+                           f'(attempt {attempt})'
                 for i in range(2):
                     if errs[i] is not None:
                         return f'concurrent build {i} raises {type(errs[i]).__name__}: {errs[i]} (attempt {attempt})'
